@@ -21,6 +21,9 @@ def gen(tier, rng, harness=None):
         lines.append("mod.outcome %s %s" % (hx(sk), hx(text)))
         lines.append("mod.lists %s %s" % (hx(sk), hx(text)))
         lines.append("!mod.closure %s %s" % (hx(sk), hx(text)))
+        # every operand is printed from the object it was bound to: the canonical text must come back byte for byte (a use bound to
+        # another definition - e.g. `%"1"` taken for `%1` - changes the printed operand)
+        lines.append("!mod.fix %s %s" % (hx(sk), hx(text)))
         if rng.random() < 0.5:
             t2, _ = modgen.render(m, rng, shuffle=True)
             lines.append("!mod.closure %s %s" % (hx(sk), hx(t2)))
